@@ -703,8 +703,17 @@ func genPolytope(rng *rand.Rand, kind int) *primShape {
 	}
 	poly := model3d.ConvexPolytope{}
 	data := []int{}
-	for _, c := range cons {
-		poly = append(poly, &model3d.LinearConstraint{Normal: v3c(i3f(c.n)), Max: float64(c.m)})
+	// the same half-spaces written with short or long normals (n.x <= m scaled by a power of two)
+	scale := math.Ldexp(1, []int{0, 0, -12, 20, -9}[kind/4%5])
+	if scale != 1 {
+		variant += fmt.Sprintf(" constraints*%g", scale)
+	}
+	for i, c := range cons {
+		k := scale
+		if kind/4%5 == 4 && i%2 == 1 {
+			k = 1 // mixed lengths
+		}
+		poly = append(poly, &model3d.LinearConstraint{Normal: v3c(i3f(c.n)).Scale(k), Max: float64(c.m) * k})
 		data = append(data, c.n[0], c.n[1], c.n[2], 4*c.m)
 	}
 	var s *primShape
@@ -1003,6 +1012,7 @@ type primSolidRec struct {
 	Plo        []int   `json:"plo"`
 	Phi        []int   `json:"phi"`
 	NProbe     int     `json:"nprobe"`
+	NSkin      int     `json:"nskin"` // probes just outside the faces of the reported box (leak clause only)
 	NContained int     `json:"ncontained"`
 	Runs       [][]int `json:"runs"`
 	NLeaks     int     `json:"nleaks"`
@@ -1106,6 +1116,46 @@ func primProbeSolid(id int, s *primShape) primSolidRec {
 			}
 		}
 		flush()
+		// skin probes: points just outside every face of the reported box (closer than the
+		// quarter-unit lattice gets), over a grid of in-face positions that is not aligned with it
+		const skinN = 14
+		for a := 0; a < s.dim; a++ {
+			for side := 0; side < 2; side++ {
+				for _, off := range []float64{1.0 / 64, 1.0 / 4096, 1e-9} {
+					var at float64
+					if side == 0 {
+						at = mn[a] - off*math.Max(1, math.Abs(mn[a]))
+					} else {
+						at = mx[a] + off*math.Max(1, math.Abs(mx[a]))
+					}
+					for i := 0; i < skinN; i++ {
+						for j := 0; j < skinN; j++ {
+							if s.dim == 2 && j > 0 {
+								break
+							}
+							c := pvec{}
+							fr := []float64{(float64(i) + 0.37) / skinN, (float64(j) + 0.61) / skinN}
+							k := 0
+							for b := 0; b < s.dim; b++ {
+								if b == a {
+									c[b] = at
+								} else {
+									c[b] = mn[b] + fr[k]*(mx[b]-mn[b])
+									k++
+								}
+							}
+							rec.NSkin++
+							if s.contains(c) {
+								rec.NLeaks++
+								if len(rec.Leaks) < 5 {
+									rec.Leaks = append(rec.Leaks, []int{int(math.Floor(4 * c[0])), int(math.Floor(4 * c[1])), int(math.Floor(4 * c[2]))})
+								}
+							}
+						}
+					}
+				}
+			}
+		}
 	})
 	if p != "" {
 		rec.Panic = p
@@ -1557,7 +1607,7 @@ func init() {
 			rec := primProbeSolid(i+1, s)
 			stats["records"]++
 			stats["site:"+s.site]++
-			stats["probes"] += rec.NProbe
+			stats["probes"] += rec.NProbe + rec.NSkin
 			if rec.NContained > 0 {
 				stats["nonempty"]++
 			}
